@@ -62,6 +62,7 @@ F_path_read     == Fr("parse_path: except (OSError, UnicodeError) around fpath.g
 F_float_conv    == Fr("adapt_typehints leaf: except OverflowError around float(val) -> ValueError  [_typehints.py:785-788, fix 02016da]", {"OverflowError"}, "ValueError")
 F_registered    == Fr("RegisteredType.deserializer: except self.deserializer_exceptions (default ValueError, TypeError, AttributeError) -> ValueError  [typing.py:285-292]", {"ValueError", "TypeError", "AttributeError"}, "ValueError")
 F_registered_dec == Fr("RegisteredType.deserializer of decimal.Decimal: except (ValueError, TypeError, AttributeError, ArithmeticError) -> ValueError  [typing.py:387-389, fix 4bbf74f]", {"ValueError", "TypeError", "AttributeError", "ArithmeticError"}, "ValueError")
+F_defaults      == Fr("_parse_defaults_and_environ: except argparse.ArgumentError around get_defaults -> self.error  [_core.py:400-404, fix 5bebf56]", {"ArgparseError"}, "error")
 F_env_list      == Fr("_load_env_vars: except get_loader_exceptions() (list value kept as text)  [_core.py:551]", {"Loader"}, "swallowed")
 
 \* stages: where a failure originates, with the frames around it from the INSIDE out, per parse method
@@ -81,7 +82,8 @@ StagesOf(m) ==
          Stage("resolve the path of --cfg (Path in apply_config)", <<F_cfg_path, F_parse_method>>, {"PathError", "TypeError"}),
          Stage("apply actions to the content of --cfg", <<F_check_type, F_apply_config, F_parse_method>>, {"TypeError", "ValueError"}),
          Stage("whole-group value (_ActionConfigLoad._load_config)", <<F_config_load_a, F_parse_method>>, {"TypeError", "Loader"}),
-         Stage("default config file", <<F_default_cfg, F_known_args, F_parse_method>>, {"TypeError", "KeyError", "ArgparseError"}),
+         Stage("default config file", <<F_default_cfg, F_defaults, F_parse_method>>, {"TypeError", "KeyError", "ArgparseError"}),   \* get_defaults is called from _parse_defaults_and_environ, BEFORE parse_known_args; before fix 5bebf56: <<F_default_cfg, F_parse_method>>, an ArgumentError that exit_on_error=True does not turn into exit 2
+         Stage("settings of a sub-command that are not a mapping (_subcommand_settings, _check_value_key)", <<F_parse_method>>, {"TypeError"}),   \* before fix 7c4a568: AttributeError ('int' object has no attribute 'clone')
          Stage("apply parsing links", <<F_links, F_parse_method>>, {"TypeError", "KeyError", "ValueError", "AttributeError", "Other"}),
          Stage("validate", <<F_validate, F_parse_method>>, {"TypeError", "KeyError"}),
          Stage("defaults and environment, sub-commands, leftovers", <<F_parse_method>>, {"TypeError", "KeyError"})}
@@ -93,6 +95,8 @@ StagesOf(m) ==
          Stage("deserialise a decimal.Decimal", <<F_registered_dec, F_check_type, F_parse_method>>, {"ValueError", "TypeError", "InvalidOperation"}),
          Stage("select the sub-command named in a config (get_subcommands)", <<F_parse_method>>, {"NSKeyError"}),
          Stage("apply parsing links", <<F_links, F_parse_method>>, {"TypeError", "KeyError", "ValueError", "AttributeError", "Other"}),
+         Stage("default config file", <<F_default_cfg, F_defaults, F_parse_method>>, {"TypeError", "KeyError", "ArgparseError"}),
+         Stage("settings of a sub-command that are not a mapping (_subcommand_settings, _check_value_key)", <<F_parse_method>>, {"TypeError"}),
          Stage("validate", <<F_validate, F_parse_method>>, {"TypeError", "KeyError"})}
     [] m = "parse_string" ->
         {Stage("load the text (load_value in _load_config_parser_mode)", <<F_load_config, F_parse_method>>, {"Loader"}),
@@ -102,6 +106,8 @@ StagesOf(m) ==
          Stage("deserialise a decimal.Decimal", <<F_registered_dec, F_check_type, F_parse_method>>, {"ValueError", "TypeError", "InvalidOperation"}),
          Stage("select the sub-command named in a config (get_subcommands)", <<F_parse_method>>, {"NSKeyError"}),
          Stage("apply parsing links", <<F_links, F_parse_method>>, {"TypeError", "KeyError", "ValueError", "AttributeError", "Other"}),
+         Stage("default config file", <<F_default_cfg, F_defaults, F_parse_method>>, {"TypeError", "KeyError", "ArgparseError"}),
+         Stage("settings of a sub-command that are not a mapping (_subcommand_settings, _check_value_key)", <<F_parse_method>>, {"TypeError"}),
          Stage("validate", <<F_validate, F_parse_method>>, {"TypeError", "KeyError"})}
     [] m = "parse_path" ->
         {Stage("resolve the path (Path(cfg_path) in parse_path)", <<F_path_resolve>>, {"PathError"}),        \* before fix 3bf3b7b: << >>, outside every handler
@@ -115,6 +121,8 @@ StagesOf(m) ==
          Stage("deserialise a decimal.Decimal", <<F_registered_dec, F_check_type, F_parse_method>>, {"ValueError", "TypeError", "InvalidOperation"}),
          Stage("load a list-valued variable", <<F_env_list, F_parse_method>>, {"Loader"}),
          Stage("load the config variable", <<F_load_config, F_apply_config, F_parse_method>>, {"Loader"}),
+         Stage("default config file", <<F_default_cfg, F_defaults, F_parse_method>>, {"TypeError", "KeyError", "ArgparseError"}),
+         Stage("settings of a sub-command that are not a mapping (_subcommand_settings, _check_value_key)", <<F_parse_method>>, {"TypeError"}),
          Stage("validate", <<F_validate, F_parse_method>>, {"TypeError", "KeyError"})}
 
 \* what comes out when `cls` is raised inside the given frames: "error" (the documented channel), "swallowed", or the
